@@ -109,6 +109,9 @@ def shapes_for(tier):
         out.append((('in', 'given', 'absent', o0), ('mid', 'given', ('ref', 0, 'topic'), o1), ('out', 'auto', ('ref', 1, 'eph'), 'absent')))
         out.append((('in', 'auto', 'absent', o0), ('in', 'auto', 'absent', o1), ('out', 'auto', ('ref', 0, 'none'), 'absent')))
         out.append((('in', 'auto', 'absent', o0), ('out', 'given', ('ref', 0, 'none'), 'absent'), ('out', 'given', ('ref', 0, 'opt'), 'absent')))
+        # two consumers of one producer, the FIRST reference carrying a suffix (each reference keeps its own suffix, none inherits another's)
+        out.append((('in', 'auto', 'absent', o0), ('out', 'given', ('ref', 0, 'eph'), 'absent'), ('out', 'given', ('ref', 0, 'none'), 'absent')))
+        out.append((('in', 'given', 'absent', o0), ('mid', 'given', ('ref', 0, 'topic'), o1), ('out', 'auto', ('ref', 0, 'opt'), 'absent')))
     base = [(s, ipc) for s in out for ipc in (False, True)]
     # the same filter lists through the WHOLE function: the command line as the shell hands it over, `--param value` and `--param=value` spellings
     whole = [(s, ipc, form) for (s, ipc) in base for form in ('sep', 'eq') if tier != 'quick' or (len(s) >= 2 and (ipc is False or form == 'sep'))]
@@ -332,6 +335,14 @@ def replay_shape(failure):
     idl = [c.get('id') for _, c, _ in res]
     if len(set(idl)) != len(idl):
         obs.append(f'duplicate ids {idl}')
+    for i, (role, idk, srck, outk) in enumerate(fshape):
+        if isinstance(srck, list) and i < len(res):
+            got = res[i][1].get('sources')
+            got = got if isinstance(got, str) else ', '.join(got or [])
+            suf = suffix[srck[2]]
+            addr = got[:len(got) - len(suf)] if suf else got
+            if not got.endswith(suf) or any(ch in addr.split('://', 1)[-1] for ch in '?;!'):
+                obs.append(f'source of {idl[i]} was written as {ids[srck[1]] + suf!r} and rewritten to {got!r}: the suffix is not exactly its own ({suf!r})')
     return {'confirmed': bool(obs), 'inputs': ' '.join(args[:-1]), 'observed': obs or [dict(c) for _, c, _ in res], 'required': 'no overlapping (port, port+1) pairs, unique ids'}
 
 
